@@ -15,6 +15,8 @@ type Contract struct {
 	Props    []string
 	AtEvals  []*AtEval
 	Lemmas   []*Lemma
+	OnStores []*OnStore
+	OnCalls  []*OnCall
 }
 
 type Clause struct {
@@ -45,4 +47,27 @@ type Lemma struct {
 	Lo, Hi int
 	Expr   Expr
 	Text   string
+}
+
+// OnStore: an assertion checked at every store to the named struct field in
+// the function under contract; `was` is the field's value before the store,
+// `now` the value being stored.
+type OnStore struct {
+	Field string
+	Label string
+	Expr  Expr
+	Text  string
+	used  int
+}
+
+// OnCall: an assertion checked at calls of the named function / method in the
+// function under contract; $arg0, $arg1, ... are the call's arguments (without
+// the receiver). Name may carry "#n" to select the n-th such call (in block order).
+type OnCall struct {
+	Callee string
+	Nth    int
+	Label  string
+	Expr   Expr
+	Text   string
+	used   int
 }
